@@ -149,6 +149,7 @@ func runC05(c *Ctx) {
 	add("ALT", altL, "i", profP0i, 4)
 	add("ALT", altL, "2", profP0, 4)
 	add("ALTB", altBranchFamily(false), "", profP0, 4)
+	add("BUMP", bumpFamily(), "", profP0, 5)
 	add("LOOP", loopF, "", profP0, 4)
 	add("LOOK", lookF, "", profP0, 4)
 	add("ANCH<=4", anch, "", anchProf, 4)
@@ -156,6 +157,7 @@ func runC05(c *Ctx) {
 	add("LAND", land, "", profP0, 5)
 	add("NWB", nwbFamily(), "", nwbNl, 4)
 	add("CORPUS", corpus, "", profCorpus, 3)
+	add("LIM", limFamily(), "", profCorpus, 2)
 	if thorough {
 		core5 := coreFamily("CORE", grammarCore(), 5)
 		add("CORE<=5", core5, "", profP0, 4)
